@@ -1053,6 +1053,12 @@ def sym_str(x=''):
     return str(x)
 
 
+class SymStrType(str):
+    """what `str` resolves to in instrumented modules (callable like str(), usable as a type)"""
+    def __new__(cls, x=''):
+        return sym_str(x)
+
+
 def sym_len(x):
     if isinstance(x, SymStr):
         return x.__symlen__()
@@ -1108,7 +1114,7 @@ def sym_open(name, mode='r', *a, **kw):
 def install():
     from . import loader
     loader.fmt_hook[0] = fmt_hook
-    loader.extra_globals['str'] = sym_str
+    loader.extra_globals['str'] = SymStrType
     loader.extra_globals['len'] = sym_len
     loader.extra_globals['open'] = sym_open
     from . import symre
